@@ -1,5 +1,6 @@
 """C13 — values keep their exact meaning across literal, variable and metadata text."""
 import itertools
+import json
 import random
 from fractions import Fraction
 
@@ -197,6 +198,15 @@ def check_roundtrip(chk, fails, dis, stats):
                 fails.append((c, go, m, ["account metadata text %r differs from the value's text %r" % (go["accMeta"]["acc"]["k"], s)]))
             if ty in ("number", "portion", "monetary") and o.get("json") != '"%s"' % s:
                 fails.append((c, go, m, ["transaction metadata serialises to %s, expected the quoted text %r" % (o.get("json"), s)]))
+            if ty in ("string", "asset", "account") and o.get("json") is not None:
+                # whatever escapes the serialiser chooses, a JSON reader must get the text back
+                try:
+                    back = json.loads(o["json"])
+                except Exception:
+                    back = None
+                    fails.append((c, go, m, ["transaction metadata serialises to %s, which is not JSON" % o["json"][:80]]))
+                if back is not None and back != s:
+                    fails.append((c, go, m, ["transaction metadata serialises to %s, which reads back as %r, not %r" % (o["json"][:80], back, s)]))
     for j, (c, o, m) in enumerate(zip(c2, g2, m2)):
         i = idx[j]
         go = o.get("go")
